@@ -55,6 +55,10 @@ package shachain
 //@   site call append: assert ret(getBit) == 1 && bitAt(to, position) == 1 && position < z
 //@   nopanic
 //@
+//@ // chainhash.Hash.IsEqual only reads its receiver and argument
+//@ extern func (*chainhash.Hash) IsEqual
+//@   ensures true
+//@
 //@ func (e *element) isEqual
 //@   props C06
 //@   ensures result ==> e.index == e2.index && ret(IsEqual)
@@ -101,6 +105,6 @@ package shachain
 //@ func NewRevocationStoreFromBytes
 //@   props C06
 //@   loop * havoc
-//@   covers-nonnil-returns except ret(Read), ret(ReadFull)
+//@   covers-nonnil-returns nosites except ret(Read), ret(ReadFull)
 //@   site call Read nth 0: assert arg(0) == r && arg(2) == addr(store.lenBuckets)
 //@   site call Read nth 2: assert arg(0) == r && arg(2) == addr(store.index)
